@@ -42,7 +42,7 @@ LEVELS = {
     "portable": PORTABLE,
     "pure": ("pure",),
 }
-DRIVER_FEATURE = {"traits-preview": "traits"}      # blake3 feature -> driver feature
+DRIVER_FEATURE = {"traits-preview": "traits", "zeroize": "zeroize"}      # blake3 feature -> driver feature
 
 
 # ==============================================================================================
@@ -586,6 +586,8 @@ def expected_simple(sc, res):
             return {"out_hex": b3spec.context_key(sc["context"]).hex()}
     if k == "mmap_special":
         return {"same": True}
+    if k == "zeroize_probe":
+        return {"residue": False}
     if k == "hex":
         op = sc["op"]
         if op == "from_hex":
@@ -1079,6 +1081,18 @@ def fam_reader(rng):
     return out
 
 
+def fam_zeroize(rng):
+    out = []
+    mi = 0
+    for n, ups in ((100, [100]), (1500, [1500]), (9217, [1024] * 9 + [1]), (7 * 1024, [1024] * 7),
+                   (16 * 1024 + 70, [4096, 4096, 8192 + 70]), (3 * 1024 + 65, [2048, 1024 + 65]), (65536, [65536])):
+        for reset_after in (False, True):
+            out.append(_with({"kind": "zeroize_probe", "input": _inp(n), "updates": ups, "reset_after": reset_after},
+                             MODES[mi % 3]))
+            mi += 1
+    return out
+
+
 def fam_rayon_mmap(rng):
     # files that open, seek and read but may refuse mmap (sysfs / procfs); skipped by the driver when absent
     out = [{"kind": "mmap_special", "path": p} for p in ("/sys/kernel/btf/vmlinux", "/proc/self/maps",
@@ -1148,6 +1162,7 @@ FAMILIES = {
     "reader": (fam_reader, ()),
     "rayon_mmap": (fam_rayon_mmap, ("mmap", "rayon")),
     "platform": (fam_platform, ()),
+    "zeroize": (fam_zeroize, ("zeroize",)),
 }
 
 
@@ -1168,6 +1183,7 @@ TABLE = [
     (r"^crate::(counter_low|counter_high)", ["platform", "xof", "oneshot"], GENERAL, ("portable", "detect")),
     (r"^crate::Hash::|^crate::HexError|^crate::HexErrorInner", ["hex"], ["default"], ()),
     (r"^crate::guts::", ["guts", "oneshot"], GENERAL, ()),
+    (r"[Zz]eroize", ["zeroize"], ["default"], ()),
     (r"^crate::traits::", ["traits", "reset", "xof"], ["default"], ()),
     (r"^crate::io::|Hasher::update_reader", ["reader", "rayon_mmap", "incremental"], ["default"], ()),
     (r"^crate::join::|Hasher::update_rayon|Hasher::update_mmap", ["rayon_mmap", "incremental"], ["default"], ()),
